@@ -376,9 +376,9 @@ def configs(tier):
         bws = [(0, "PhaseSpaceFactor"), (1, "UF"), (2, "PhaseSpaceFactorAbs")]
     else:
         nonrel = [(n, p) for n in (1, 2, 3) for p in (1, 2, 3)]
-        rel = [(n, p, L, "UF") for n in (1, 2, 3) for p in (1, 2, 3) for L in (0, 1, 2, 3, 4) if (n * p <= 4 or L <= 1)]
-        rel += [(n, p, L, ph) for ph in REAL_PHSP for (n, p, L) in ((1, 1, 0), (2, 2, 1), (1, 3, 2), (2, 1, 3), (1, 1, 4))]
-        bws = [(L, ph) for L in range(5) for ph in (*REAL_PHSP, "UF")]
+        rel = [(n, p, L, "UF") for n in (1, 2, 3) for p in (1, 2, 3) for L in (0, 1, 2) if (n * p <= 4 or L <= 1)]
+        rel += [(n, p, L, ph) for ph in REAL_PHSP for (n, p, L) in ((1, 1, 0), (2, 2, 1), (1, 3, 2), (2, 1, 2), (1, 1, 2))]
+        bws = [(L, ph) for L in range(3) for ph in (*REAL_PHSP, "UF")]
     for n, p in nonrel:
         out.append({"name": f"param:nonrel:n={n}:poles={p}", "level": "param", "kind": "nonrel", "n": n, "n_poles": p})
     for n, p, L, ph in rel:
@@ -411,13 +411,13 @@ def main():
             dyn.relativistic_breit_wigner,
             dyn.relativistic_breit_wigner_with_ff,
         ],
-        bounds={"n_channels": "1..2 quick / 1..3 thorough", "n_poles": "1..3", "L": "0..4", "phase-space factors": "UF rhoX>0, PhaseSpaceFactor, ...Abs, ...Complex"},
+        bounds={"n_channels": "1..2 quick / 1..3 thorough", "n_poles": "1..3", "L": "0..2", "phase-space factors": "UF rhoX>0, PhaseSpaceFactor, ...Abs, ...Complex"},
         assumptions=[
             "uninterpreted phase-space factor rhoX(s,m1,m2): real and > 0 at every point where it is applied (needed for the sqrt(rho) the library takes)",
             "domain: s above every threshold, pole masses above every threshold, non-negative parameters as declared by the library's symbols, denominators non-zero",
             "K real (not necessarily symmetric) and P complex in the abstract obligations",
         ],
-        outside=["n_channels > 3, n_poles > 3, L > 4", "phase-space factors that are complex above threshold (S-wave Chew-Mandelstam, equal-mass)", "floating point"],
+        outside=["n_channels > 3, n_poles > 3, L > 2", "phase-space factors that are complex above threshold (S-wave Chew-Mandelstam, equal-mass)", "floating point"],
     )
 
 
